@@ -598,7 +598,7 @@ Proof.
 Qed.
 
 (* ------------------------------------------------------------------ closed witnesses (replayed by the harness as directed cases) *)
-Definition w_probes : list probe := [(1, 1, 20000); (2, 1, 6000); (2, 1, 20000); (3, 1, 20000)]%N%Z.
+Definition w_probes : list probe := [(1%N, 1%N, 20000); (2%N, 1%N, 6000); (2%N, 1%N, 20000); (3%N, 1%N, 20000)].
 (* class 1: a user enabled, later disabled *)
 Definition w1 : c10case :=
   CRestart 1%N [[(100, EvAdmin 1 5000 true); (0, EvGroup 10); (101, EvRight 10 0 5000 true false); (102, EvUser 10 2 5000 true)];
